@@ -415,11 +415,12 @@ func isControlHeader(k string) bool {
 // appHeaders returns the non-control part of h as a sorted multimap copy.
 func appHeaders(h http.Header) map[string][]string {
 	out := map[string][]string{}
-	for k, v := range h {
+	for _, k := range sortedKeys(h) {
 		if isControlHeader(k) {
 			continue
 		}
-		out[k] = append([]string(nil), v...)
+		ck := http.CanonicalHeaderKey(k)
+		out[ck] = append(out[ck], h[k]...)
 	}
 	return out
 }
@@ -650,6 +651,7 @@ type Outcome struct {
 	ContentType string             `json:"content_type,omitempty"`
 	RespCompression string         `json:"resp_compression,omitempty"`
 	BareBody   string              `json:"bare_body,omitempty"`
+	TrailersOnly bool              `json:"trailers_only,omitempty"`
 	Allow      []string            `json:"allow,omitempty"`
 }
 
@@ -844,6 +846,7 @@ func parseResponse(form string, codec string, accept []string, rv *RespView, new
 			}
 		}
 		if inHeaders {
+			o.TrailersOnly = true
 			o.Terminals++
 			if len(frames) > 0 && !(form == FormGRPCWeb && len(frames) == 1 && trailerSeen) {
 				o.problem("trailers-only response carries a body")
@@ -967,10 +970,10 @@ func parseResponse(form string, codec string, accept []string, rv *RespView, new
 	case FormConnectUnary, FormConnectGet:
 		o.Terminals = 1
 		for k, v := range rv.Header {
-			if strings.HasPrefix(k, "Trailer-") {
-				name := strings.TrimPrefix(k, "Trailer-")
+			if len(k) > 8 && strings.EqualFold(k[:8], "Trailer-") {
+				name := http.CanonicalHeaderKey(k[8:])
 				if !isControlHeader(name) {
-					o.Trailers[name] = append([]string(nil), v...)
+					o.Trailers[name] = append(o.Trailers[name], v...)
 				}
 			}
 		}
